@@ -287,7 +287,7 @@ func (f *Frame) invoke(x *ssa.Call, pc string, st *State) {
 		cur := vc.ghostTerm(st, trn, "Tr."+short, "")
 		st.ghost[trn] = vc.def(sanitize(trn), "Tr."+short, fmt.Sprintf("(cons.%s %s %s)", short, ev, cur))
 		for name, srt := range vc.eng.monSorts {
-			if vc.eng.monIface[name] == short && vc.eng.monMode[name] == vc.mode.String() {
+			if vc.eng.monIface[name] == short && vc.monActive(name) {
 				mc := vc.ghostTerm(st, name, srt, "")
 				st.ghost[name] = vc.def(sanitize(name), srt, fmt.Sprintf("(%s.step %s %s)", name, mc, ev))
 			}
